@@ -563,6 +563,50 @@ pub fn apply_op(
                 fs.user_remove(path);
             }
         }
+        Op::Rename { from, to } if fs.user_is_dir(from) => {
+            // a directory moves inside the watched tree: one rename pair from the parents'
+            // watches; notify re-registers the watches of the moved tree under the new name
+            let from_watched = watches.dir_watched(from);
+            let to_watched = watches.dir_watched(to);
+            fs.user_rename(from, to);
+            let cookie = watches.cookie();
+            let prefix = format!("{}/", from);
+            let moved: Vec<String> = watches
+                .dirs
+                .iter()
+                .filter(|d| **d == *from || d.starts_with(&prefix))
+                .cloned()
+                .collect();
+            for d in &moved {
+                watches.dirs.remove(d);
+            }
+            if from_watched {
+                out.push(RawEvent {
+                    kind: EventKind::Modify(ModifyKind::Name(RenameMode::From)),
+                    paths: vec![abs(from)],
+                    tracker: Some(cookie),
+                });
+            }
+            if to_watched {
+                out.push(RawEvent {
+                    kind: EventKind::Modify(ModifyKind::Name(RenameMode::To)),
+                    paths: vec![abs(to)],
+                    tracker: Some(cookie),
+                });
+                if from_watched {
+                    out.push(RawEvent {
+                        kind: EventKind::Modify(ModifyKind::Name(RenameMode::Both)),
+                        paths: vec![abs(from), abs(to)],
+                        tracker: Some(cookie),
+                    });
+                }
+                for d in &moved {
+                    watches.dirs.insert(format!("{}{}", to, &d[from.len()..]));
+                }
+            }
+            // inode watches on files inside keep working under the old name in the real
+            // stack; such files are not renamed by the generator (externals live elsewhere)
+        }
         Op::Rename { from, to } => {
             if fs.user_exists(from) && !fs.user_is_dir(from) {
                 let from_watched = watches.dir_watched(from);
